@@ -463,7 +463,11 @@ INSIDE = ['on "Top"', 'off "Top"', 'on group "Pole"', 'off location "Home"',
           'on "Strip" zone 5', 'off "Top" and "Strip" zone 2 4',
           'on "Candle" row 1', 'off "Candle" row 0 column 1 2',
           'on "Candle" begin stage row 1 end', 'off "Strip" zone 1 and "a"',
-          'get "Strip" zone 2', 'get "Candle" row 1', 'on group "Pole" zone 1']
+          'get "Strip" zone 2', 'get "Candle" row 1', 'on group "Pole" zone 1',
+          # a block where a stage expects rows and columns
+          'stage begin print 1 end', 'stage begin stage row 1 end',
+          'if { 1 } stage begin on "Top" end', 'stage begin end',
+          'repeat 2 stage begin print 1 end']
 
 
 def class_f(rng):
